@@ -1,4 +1,5 @@
 import TonicModel.Basic.ConnScript
+import TonicModel.Basic.ErrChain
 /-
 Oracle for C14, written from the property text and independent of `Model/Reconnect`:
 what a caller may observe from a channel under a fault script.  Every definition here speaks
@@ -263,5 +264,20 @@ def unitClauses (env : List Ans) (os : List UnitObs) : List (String × Bool) :=
       | .cpending => true
       | .callPanic => true),
     ("errors-are-failures-reported-once", (unitErrs os).isSublist (failures env)) ]
+
+/-! ### the class of a connection failure -/
+
+/-- Is this error the failure of a connection attempt?  It is if a connect error sits in its
+source chain beneath nothing but wrappers that carry no gRPC meaning of their own (a transport
+error, an I/O error, a user's error type).  What caused the connect error does not matter. -/
+def isConnectFailure : List ErrChain.Node → Bool
+  | [] => false
+  | .connectError :: _ => true
+  | n :: rest => n.plain && isConnectFailure rest
+
+/-- "an UNAVAILABLE-class error while no connection can be made": whatever made the attempt fail,
+the status a caller derives from the error is UNAVAILABLE. -/
+def classClauses (chain : List ErrChain.Node) (code : Nat) : List (String × Bool) :=
+  [ ("error-is-unavailable-class", !isConnectFailure chain || code == unavailable) ]
 
 end Spec.Reconnect
